@@ -7,6 +7,7 @@ import (
 	"strings"
 	"unicode"
 
+	"github.com/freeconf/yang/fc"
 	"github.com/freeconf/yang/meta"
 	"github.com/freeconf/yang/node"
 	"github.com/freeconf/yang/val"
@@ -255,6 +256,10 @@ func (self Reflect) buildKey(n node.Node, keyMeta []meta.Leafable) ([]val.Value,
 		var hnd node.ValueHandle
 		if err := n.Field(r, &hnd); err != nil {
 			return nil, err
+		}
+		if hnd.Val == nil {
+			// an entry whose key field holds nothing cannot be ordered or looked up
+			return nil, fmt.Errorf("%w. entry of a list has no value for its key '%s'", fc.BadRequestError, k.Ident())
 		}
 		key[i] = hnd.Val
 	}
